@@ -25,6 +25,8 @@ func init() {
 		Run: runC04,
 	})
 	addMutants("C04",
+		mutant{"refused ScheduleOnce clears the repetition flag", "timer.go",
+			"func (t *Timer) ScheduleOnce(delay time.Duration, cb func()) (err error) {\n\tif t.state == stateReady {", "func (t *Timer) ScheduleOnce(delay time.Duration, cb func()) (err error) {\n\tt.cancelled = false\n\tif t.state == stateReady {", "C04-R3"},
 		mutant{"Cancel leaves the timer scheduled", "timer.go",
 			"\t\tt.cancelled = true\n\t\tt.state = stateReady\n", "\t\tt.cancelled = true\n", "C04-R3"},
 		mutant{"Cancel records ready before the disarm result is known", "timer.go",
@@ -458,6 +460,36 @@ func runC04(c *Ctx) {
 			})
 			c.check(reach, fn, "reaches Unset", fn.Pos(), "disarms through Unset", fn.Name()+" does not disarm the internal timer")
 		}
+		// a refused schedule changes nothing: ScheduleOnce / ScheduleRepeating write the timer's fields only under
+		// state == stateReady (a call on a scheduled or closed timer fails without disturbing the schedule it holds)
+		{
+			timerT := p.Named("sonic", "Timer")
+			for _, fn := range []*ssa.Function{schedOnce, schedRep} {
+				n := 0
+				var visit func(f *ssa.Function, depth int)
+				visit = func(f *ssa.Function, depth int) {
+					eachInstr(f, func(in ssa.Instruction) {
+						if st, ok := in.(*ssa.Store); ok {
+							if fa, ok := st.Addr.(*ssa.FieldAddr); ok {
+								if pt, ok := fa.X.Type().(*types.Pointer); ok && types.Identical(pt.Elem(), timerT) {
+									n++
+									al := allowedStatesCtx(p, in, stateF, 3, 2)
+									fv, _ := fieldAddrOf(fa)
+									c.check(len(al) == 1 && al[ready], f, "refused schedule", in.Pos(), "timer fields are written only when the timer is ready", fnName(fn)+" writes the timer's field "+fv.Name()+" without having tested state == stateReady: a call that is refused (timer scheduled or closed) has already altered the schedule the timer holds")
+								}
+							}
+						}
+						if call, ok := in.(*ssa.Call); ok && depth < 2 {
+							if h := call.Call.StaticCallee(); isHelperOf(fn, h) && h != schedOnce && h != schedRep {
+								visit(h, depth+1)
+							}
+						}
+					})
+				}
+				visit(fn, 0)
+				_ = n
+			}
+		}
 		// Cancel: stateReady is recorded exactly when Unset succeeded (a failed Unset leaves the timerfd armed: the timer
 		// is still scheduled; a successful one leaves nothing due: Scheduled() must say so and a new schedule be accepted)
 		{
@@ -608,8 +640,8 @@ func runC04(c *Ctx) {
 		// the repeating wrapper: the closure (of ScheduleRepeating or of a helper it uses) that re-arms through ScheduleOnce
 		var rep *ssa.Function
 		for _, fn := range timerFuncs {
-			if fn.Parent() == nil {
-				continue
+			if fn.Parent() == nil && (fn == schedRep || fn == schedOnce || fn.Object() == nil || fn.Object().Exported()) {
+				continue // a closure, or an unexported method the timer installs as its own tick
 			}
 			if len(callsToFn(fn, schedOnce)) > 0 && len(fieldAccesses(fn, cancelledF)) > 0 {
 				rep = fn
